@@ -1,3 +1,4 @@
+\* sensitivity (expected: NegativeAckOnlyThatCaller violated): constant call id
 SPECIFICATION Spec
 CONSTANTS
   Callers = {P1, P2}
